@@ -146,7 +146,8 @@ func c01Property(t *rapid.T, rec *evid.Rec, st *stack.Stack, sc stackCase, maxSt
 		ses := newSession(st, sc.Binary)
 		defer ses.close()
 		model := refmodel.New()
-		opts := cmdGenOpts{Binary: sc.Binary, Keys: smallKeys, TwoPorts: sc.Cfg.Shape == "l1l2+batch"}
+		keys := genAlphabet(t)
+		opts := cmdGenOpts{Binary: sc.Binary, Keys: keys, TwoPorts: sc.Cfg.Shape == "l1l2+batch"}
 		n := rapid.IntRange(1, maxSteps).Draw(t, "steps")
 		var cmds []wire.Cmd
 		var fp strings.Builder
@@ -205,7 +206,7 @@ func c01Property(t *rapid.T, rec *evid.Rec, st *stack.Stack, sc stackCase, maxSt
 				fail(i, c, msg)
 			}
 			if st.L2 == nil && sc.Cfg.L1 == "chunked" {
-				if d := chunkedBackendCheck(st.L1.Live(), model, smallKeys, nowUnix()); d != "" {
+				if d := chunkedBackendCheck(st.L1.Live(), model, keys, nowUnix()); d != "" {
 					fail(i, c, "authoritative backend (chunked image): "+d)
 				}
 			} else if d := backendDiff(liveView(st.Auth()), model, nowUnix()); d != "" {
@@ -225,7 +226,7 @@ func c01Property(t *rapid.T, rec *evid.Rec, st *stack.Stack, sc stackCase, maxSt
 		}
 		// final scan of the alphabet, one key at a time and all at once
 		now := nowUnix()
-		for _, k := range smallKeys {
+		for _, k := range keys {
 			c := wire.Cmd{Kind: wire.Get, Keys: []string{k}}
 			exp := model.Apply(c, now)
 			got, err := ses.client(0).Do(c)
